@@ -220,6 +220,20 @@ PROPS["C10"] = {
     "run_timeout": {"quick": 900, "thorough": 3400},
 }
 
+PROPS["C13"] = {
+    "level": "proof",
+    "technique": "Lean 4: the transform / split / merge network is defined once, generically; theorems for any commutative ring (round trip, product = negacyclic product, merge.split = id, split.fft = (fft even, fft odd)); the complex table checked against those relations in exact dyadic arithmetic by the kernel; the Float instance compared bit-for-bit with the Rust code and its accuracy measured against exact integer arithmetic",
+    "rule": "ops = for every n = 2..1024: forward/inverse transform of unit vectors, and for integer-valued inputs at the range limits (|a_i| <= 2^14, |b_i| <= 2^10: all-max, alternating, sparse, random) ifft(fft a), ifft(fft a . fft b), split(fft a), split and merge of random transform-domain vectors; every op is executed by the Rust code and by the Lean Float model (bit patterns compared); the oracle compares with the exact integer negacyclic product within 2^-30 ||a|| ||b||, merge(split F) with F, split(fft a) with (fft a_even, fft a_odd); distinct by op line",
+    "exhaustive": {"quick": (False, ""), "thorough": (False, "")},
+    "level_text": "Machine-checked in exact arithmetic for every length 2^d and every input: ifft(fft a) = a, ifft(fft a . fft b) = a*b in F[X]/(X^n+1), merge(split F) = F, split(fft a) = (fft a_even, fft a_odd), under the table relations; those relations hold for the real 1024-entry complex table to 2^-50 (exact dyadic arithmetic over the bit patterns rustc produces, quadrant conditions included). The floating-point instance of the same generic definitions equals the Rust code bit for bit on every run. NOT proved: the rounding-error bound 2^-30 for all inputs (measured per run against exact integers).",
+    "level_note": "Trusted: Lean kernel + Mathlib; translator's decimal-literal -> double conversion (Python float = correctly rounded, as rustc); Lean Float = IEEE binary64 (executed only); num-complex's multiplication formula as transcribed.",
+    "trusted_base": TB_COMMON + ["IEEE-754 arithmetic and num-complex formulas as transcribed in Falcon/Model/FftFlt (validated bit-for-bit per run)"],
+    "assumptions": ["inputs in the magnitude range the property states"],
+    "not_proved": ["floating-point rounding error bound for all inputs"],
+    "release_too": True,
+    "lake_timeout": 2400,
+}
+
 # properties not (yet) claimed, with the reason shown in MANIFEST.not_applicable
 NOT_YET = {k: "check not built yet in this session (planned in DESIGN.md §7/§8); not claimed until its check passes" for k in
-           ["C13", "C16"]}
+           ["C16"]}
